@@ -39,7 +39,38 @@ fn keyfns() -> Vec<(&'static str, Vec<C>)> {
         ("neg", vec![C::Return(b(bin(BinOp::Sub, int(0), rv("value"))))]),
         ("len", vec![logit, C::Return(b(C::Len(b(rv("value")))))]),
         ("nested", vec![C::Return(b(C::Len(b(call("std.to_array", vec![rv("value")])))))]),
+        // re-entrant use of the native-backed functions: the key function itself asks the library
+        // for the maximum / the sorted rows / a keyed minimum of a *different* table that has at
+        // least as many rows as any outer table of the family (a scratch area shared between the
+        // outer and the inner call would be refilled under the outer call's feet)
+        ("reenter-max", {
+            let mut v = inner_table();
+            v.push(sv("m", call("std.max", vec![rv("tt")])));
+            v.push(C::Return(b(bin(BinOp::Sub, rv("value"), C::GetProperty(b(rv("m")), b(s("value")))))));
+            v
+        }),
+        ("reenter-sorted", {
+            let mut v = inner_table();
+            v.push(sv("m", call("std.sorted", vec![rv("tt")])));
+            v.push(C::Return(b(bin(BinOp::Add, rv("value"), C::Len(b(rv("m")))))));
+            v
+        }),
+        ("reenter-min-by-key", {
+            let mut v = inner_table();
+            v.push(sv("m", call("std.min_by_key", vec![C::Function("kf2".into()), rv("tt")])));
+            v.push(C::Return(b(bin(BinOp::Sub, C::GetProperty(b(rv("m")), b(s("value"))), rv("value")))));
+            v
+        }),
     ]
+}
+
+/// `tt = [30, 10, 20, 90, 40, 60]` built by statements (six rows: more than any outer table)
+fn inner_table() -> Vec<C> {
+    let mut v = vec![sv("tt", C::CreateTable)];
+    for x in [30, 10, 20, 90, 40, 60] {
+        v.push(C::Append(b(int(x)), b(rv("tt"))));
+    }
+    v
 }
 
 pub struct FStdlib {
@@ -52,7 +83,7 @@ impl FStdlib {
         (0..=self.max_entries).map(|n| v.pow(n)).sum()
     }
     const KEY_STYLES: u64 = 4;
-    const VARIANTS: u64 = 8; // callback / key-function variants per function (those that take one)
+    const VARIANTS: u64 = 9; // callback / key-function variants per function (those that take one)
     const PATHS: u64 = 4;
 }
 
@@ -218,6 +249,7 @@ fn build_from(entries: Vec<C>, key_style: u64, fname: &str, variant: usize, path
             let kfs = keyfns();
             let (_, body) = kfs[variant % kfs.len()].clone();
             fns.push(("kf".into(), Func { params: vec!["key".into(), "value".into()], cards: body }));
+            fns.push(("kf2".into(), Func { params: vec!["key".into(), "value".into()], cards: vec![C::Return(b(bin(BinOp::Sub, int(0), rv("value"))))] }));
             cb_expr = Some(C::Function("kf".into()));
         }
         // the iterable: the table, or (variant-dependent, for functions without a callback) a non-table
